@@ -388,8 +388,8 @@ func run(c Case) kit.Result {
 
 var spec = kit.Spec[Case]{
 	Prop: "C06", Name: "main",
-	Rule: "spec string from the documented grammar (default, size-N, rabin, rabin-N, rabin-min-avg-max with/without labels, buzhash, boundary and invalid parameters) x input (const/periodic/random, length aimed at 0..400 chunks, up to 1 MiB quick / 4 MiB thorough) x two read-fragmentation plans (none, 1-byte, short, long reads; final read with or without io.EOF); non-trivial = accepted spec, >= 3 chunks and a plan that fragments inside a chunk",
-	Quick: 1500, Thorough: 6000,
+	Rule:  "spec string from the documented grammar (default, size-N, rabin, rabin-N, rabin-min-avg-max with/without labels, buzhash, boundary and invalid parameters) x input (const/periodic/random, length aimed at 0..400 chunks, up to 1 MiB quick / 4 MiB thorough) x two read-fragmentation plans (none, 1-byte, short, long reads; final read with or without io.EOF); non-trivial = accepted spec, >= 3 chunks and a plan that fragments inside a chunk",
+	Quick: 1500, Thorough: 3500,
 	Gen: gen, Run: run,
 }
 
